@@ -8,6 +8,13 @@ pub mod rng;
 pub mod seq;
 pub mod util;
 
+#[cfg(all(not(feature = "ledger"), not(miri)))]
+pub mod oddalloc;
+
 #[cfg(feature = "ledger")]
 #[global_allocator]
 static GLOBAL: ledger::Ledger = ledger::Ledger;
+
+#[cfg(all(not(feature = "ledger"), not(miri)))]
+#[global_allocator]
+static GLOBAL: oddalloc::OddAlloc = oddalloc::OddAlloc;
